@@ -6,6 +6,7 @@
 #include "momo/details/HashBucketOpen8.h"
 namespace momo { namespace internal {
 template class BucketOpen2N2<HashSetItemTraits<uint64_t, MemManagerDefault>, 3, true>;
+template class BucketOpen2N2<HashSetItemTraits<uint64_t, MemManagerDefault>, 3, false>;
 template class BucketOpenN1<HashSetItemTraits<uint64_t, MemManagerDefault>, 3, true>;
 template class BucketOpen8<HashSetItemTraits<uint64_t, MemManagerDefault>>;
 template class BucketLimP4<HashSetBucketItemTraits<HashSetItemTraits<uint64_t, MemManagerDefault>>, 4, MemPoolParams<>, true>;
